@@ -62,6 +62,7 @@ fn main() {
     let opt = |k: &str| args.iter().position(|a| a == k).and_then(|i| args.get(i + 1)).cloned();
     let seed = opt("--seed").and_then(|s| s.parse::<u64>().ok()).unwrap_or(1);
     util::init();
+    util::start_watchdog(ename, 60);
     let Some((gen, mut exec)) = engine(ename) else {
         eprintln!("unknown engine {ename}");
         std::process::exit(2);
